@@ -1,5 +1,6 @@
 /- a directory of the tree is renamed inside the tree -/
 import WD.Proofs.Pipeline.Rekey
+import WD.Proofs.Pipeline.AddId
 set_option linter.unusedSimpArgs false
 namespace WD.Pipe
 
@@ -269,16 +270,39 @@ theorem step_rename_move (s : Sys) (p q : P) (e : Ent) (inv : InvRec s.fs s.k s.
   have hk' : kernelOp s.fs s.k (.rename p q) = (fsR, kB,
       [⟨wdp, .movedFrom, true, s.k.nextCookie, some (baseName p)⟩, ⟨wdq, .movedTo, true, s.k.nextCookie, some (baseName q)⟩] ++ rrep) := by
     rw [hk]; simp [fromRecs, toRecs, hrp, hrq, hd, kB, fsR]
+  have inv1 : InvOn (fun _ => True) z (s.fs.del q) kB L1 :=
+    (inv0.bump (s.k.nextCookie + 1) (by omega)).remember _ _ (by simp)
+  obtain ⟨inv2, hzq⟩ := inv_after_move inv1 hwf ok hd hwp hwq (mw := mw) hmw
+  -- after the re-keying every directory at or below `q` is watched under its path: the follow-up `_add_dir_watch` is idle
+  have hqW : isUnder ["W"] q = true := by
+    have hq0 := ne_nil_of_two_le ok.hq2
+    unfold watchedDir at hwq
+    simp only [Bool.and_eq_true, Bool.or_eq_true, beq_iff_eq, Bool.true_and] at hwq
+    exact isUnder_of_parent hq0 hwq.2
+  have hwfR : fsR.WF := ok.wf hwf
+  have hfindq : fsR.find? q = some (rwEnt p q e) := by
+    have : rwEnt p q e ∈ fsR.ents := FS.mem_renamed.mpr ⟨e, hem.1, by rw [hem.2]; exact ok.hne, rfl⟩
+    have h2 := hwfR.find_mem this
+    simpa [rwEnt, hem.2, rwPath_at] using h2
+  have hid : addTreeWatches fsR kB (rekeyLib L1 p q mw) q = (kB, rekeyLib L1 p q mw) := by
+    apply addTreeWatches_id inv2 q
+    intro y hy
+    rcases List.mem_append.mp hy with h | h
+    · rw [hfindq] at h; simp at h; subst h
+      refine ⟨(FS.find?_some hfindq).1, ?_, trivial⟩
+      simp [inTreeDir, rwEnt, hem.2, rwPath_at, hd, hqW]
+    · obtain ⟨h1, h2⟩ := List.mem_filter.mp h
+      have hy' := List.mem_filter.mp h1
+      refine ⟨hy'.1, ?_, trivial⟩
+      have hu : isUnder q y.path = true := by simpa using hy'.2
+      simp [inTreeDir, h2, isUnder_trans hqW hu]
   have hl12 : libBatch fsR kB s.lib
       [⟨wdp, .movedFrom, true, s.k.nextCookie, some (baseName p)⟩, ⟨wdq, .movedTo, true, s.k.nextCookie, some (baseName q)⟩] =
       some (kB, rekeyLib L1 p q mw, [levF, levT]) := by
     rw [libBatch_cons, libRecord_from _ _ _ _ _ _ _ _ hp1, hpb]
     simp only
-    rw [libBatch_cons, libRecord_to_paired_dir _ _ _ _ _ _ _ _ _ _ hq1 hmw inv.isRec, hqb]
+    rw [libBatch_cons, libRecord_to_paired_dir _ _ _ _ _ _ _ _ _ _ hq1 hmw inv.isRec (fun _ => by rw [hqb]; exact hid), hqb]
     simp [libBatch_nil, levF, levT, L1]
-  have inv1 : InvOn (fun _ => True) z (s.fs.del q) kB L1 :=
-    (inv0.bump (s.k.nextCookie + 1) (by omega)).remember _ _ (by simp)
-  obtain ⟨inv2, hzq⟩ := inv_after_move inv1 hwf ok hd hwp hwq (mw := mw) hmw
   have hz' : (z = none ∧ rrep = [] ∧ renameTail s.fs true q = []) ∨
       (∃ wd, z = some wd ∧ lookupW (rekeyLib L1 p q mw).pathForWd wd = some q ∧
         renameTail s.fs true q = [mkEv .DirModifiedEvent q] ∧
